@@ -38,6 +38,10 @@ def alphabet(name):
         "ladder": ([l], [l, Dagger(l), Nl, Nl + 1]),
         "mixed": ([a, l, s, c, d], [a, Dagger(a), l, Dagger(l), s, pauli.SigmaPlus("s"), c, Dagger(c), d, Dagger(d), Na]),
         "bf": ([a, c], [a, Dagger(a), Na, c, Dagger(c), Nc]),
+        "b1r": ([a], [a, Dagger(a), Na, (Na + 1) ** -1, (Na + 2) ** -1 * Na]),
+        "s2": ([s, pauli.SigmaMinus("t")], [s, pauli.SigmaPlus("s"), pauli.SigmaZ("s"), pauli.SigmaMinus("t"), pauli.SigmaPlus("t"), pauli.SigmaX("t")]),
+        "l2": ([l, LadderOp("m")], [l, Dagger(l), Nl, LadderOp("m"), Dagger(LadderOp("m")), NumberOperator(LadderOp("m"))]),
+        "sf": ([s, c, d], [s, pauli.SigmaPlus("s"), c, Dagger(c), d, Dagger(d), pauli.SigmaZ("s")]),
         "bs": ([a, s], [a, Dagger(a), Na + 1, s, pauli.SigmaPlus("s"), pauli.SigmaZ("s")]),
     }
     return A[name]
@@ -279,7 +283,15 @@ def configs(tier):
         add("bs", [1, 2, 3], 2, checks=full)
         add("mixed", [1, 2], 2, checks=full)
         add("mixed", [3], 6, checks=["split"])
+        add("b1r", [1, 2, 3], 1, checks=full)
+        add("s2", [1, 2, 3], 2, checks=full)
+        add("l2", [1, 2, 3], 2, checks=full)
+        add("sf", [1, 2, 3], 3, checks=full)
     else:
+        add("b1r", [1, 2, 3, 4], 8, checks=full)
+        add("s2", [1, 2, 3, 4], 16, checks=full)
+        add("l2", [1, 2, 3, 4], 16, checks=full)
+        add("sf", [1, 2, 3, 4], 24, checks=["split", "convert", "adjoint"])
         add("b1", [1, 2, 3, 4, 5, 6], 16, checks=full)
         add("b1x", [1, 2, 3, 4], 8, checks=full)
         add("b2", [1, 2, 3, 4], 16, checks=full)
